@@ -143,7 +143,15 @@ def run_shard(prop_id: str, sub_name: str, tier: str, seed: int, shard: int, nsh
         viols = run_body(sc, case)
         unknown = []
         for v in viols:
-            if v.key == "INCONCLUSIVE":
+            if v.key.startswith("LABEL:"):
+                # run-time classification emitted by the body (what the run actually did)
+                lab = v.key[6:]
+                res["labels"][lab] = res["labels"].get(lab, 0) + 1
+                if lab not in res["samples"] and len(res["samples"]) < 12:
+                    res["samples"][lab] = case
+            elif v.key == "NONTRIVIAL":
+                res["nontrivial_hashes"].add(case_hash(case))
+            elif v.key == "INCONCLUSIVE":
                 res["inconclusive"] += 1
             elif v.key == "REJECTED":
                 res["rejected"] = res.get("rejected", 0) + 1
